@@ -303,9 +303,27 @@ def run_shard(desc):
                     s, e = step_of_kind(k, t, j, m, rnd)
                     plan.append(s)
                     ex.append(e)
+                if t == 0 and h % 3 == 0:
+                    # thread 0's FIRST engine call overrides a built-in that no other thread mentions (function `max`, or prefix `+`); it must
+                    # stay in force whichever thread's call ends up initialising the engine
+                    if h % 2:
+                        b_ = ref.Beh(4990, False, "tag")
+                        m["gfuncs"]["max"] = b_
+                        plan.insert(0, {"op": "reg_fn", "name": "max", "beh": b_.to_json()})
+                        prog_ = "max(3, 4)"
+                    else:
+                        b_ = ref.Beh(4991, False, "tag")
+                        m["handlers"][("prefix", "+")] = b_
+                        plan.insert(0, {"op": "reg_prefix", "name": "+", "beh": b_.to_json()})
+                        prog_ = "+ 4"
+                    ex.insert(0, None)
+                    t_, exp_ = expected_of(prog_, m["table"], gfuncs=m["gfuncs"], handlers=m["handlers"])
+                    for _ in range(2):
+                        plan.append({"op": "exec", "text": prog_, "want": "a"})
+                        ex.append(("eval", t_, exp_, prog_))
                 plans.append(plan)
                 exps.append(ex)
-            steps = [{"op": "threads", "plans": plans, "jitter_ns": [rnd.randint(0, 20000) for _ in range(T)]}]
+            steps = [{"op": "threads", "plans": plans, "jitter_ns": [0 if (h % 3 == 0 and t_i == 0) else rnd.randint(0, 20000) for t_i in range(T)]}]
             run = common.run_vexec(steps, wd, "fu-%d-%d" % (si, h), profile, timeout=300)
             if crashed(run, steps, "first-use race of %d threads" % T):
                 continue
@@ -458,6 +476,12 @@ def run_shard(desc):
                 for q in range(2 * nn * 4 if not miri_ else 6):
                     k = (q + j) % len(indep_progs)
                     plan.append({"op": "hammer", "n": max(1, block // 8), "text": indep_progs[k][0], "tag": "indep:%d" % k})
+                if j < 2:
+                    # one bystander's own context binds a function that locks that context's handle while it runs (by bare name / by call)
+                    cid_ = 700 + j
+                    plan.insert(0, {"op": "ctx", "id": cid_, "vars": {"v": ["n", "1", 0]}, "fns": {"lk": {"id": 77, "ret": "const", "v": ["n", "1", 0], "reenter": {"act": "lock_ctx_block"}}}})
+                    for q in range(1, len(plan), 7):
+                        plan.insert(q, {"op": "hammer", "ctx": cid_, "n": 3, "text": "lk + v" if j == 0 else "lk() + v", "tag": "relock"})
                 plans.append(plan)
             steps = [{"op": "exec", "text": "1 + 1"}, {"op": "threads", "plans": plans, "jitter_ns": [0] * len(plans)}]
             run = common.run_vexec(steps, wd, "st-%d-%d" % (si, h), profile, timeout=600)
@@ -488,6 +512,15 @@ def run_shard(desc):
                     continue
                 for r in recs:
                     tag = r.get("tag")
+                    if tag == "relock":
+                        for sg in r.get("segs", []):
+                            part["evaluations"] += sg["count"]
+                            C["relocking_evaluations"] = C.get("relocking_evaluations", 0) + sg["count"]
+                            if sg["res"] == {"ok": ["n", "2", 0]}:
+                                part["classes"].add("bystander:relock")
+                            else:
+                                viol(["bystander-disturbed", "relock"], "a thread evaluating a program whose context function locks its own context got %s (%d times), expected 2" % (json.dumps(sg["res"])[:200], sg["count"]), None)
+                        continue
                     if not (isinstance(tag, str) and tag.startswith("indep:")):
                         continue
                     text, want = indep_progs[int(tag[6:])]
